@@ -320,7 +320,7 @@ def run(tier, t0):
         # clone(output["threads"].as_array()[requesting_thread]) - not a search by thread id (ids can repeat)
         WANT_T = '(<serde_json::Value as std::clone::Clone>::clone (<std::vec::Vec<T, A> as std::ops::Index<I>>::index (std::option::Option::unwrap (serde_json::Value::as_array (std::option::Option::unwrap (serde_json::Value::get_mut output "threads")))) (Some.0 self.requesting_thread)))'
         ok = ('requesting_thread' in ins['threads_index'][1] and 'json_registers' in ins['registers'][1] and ins['crashing_thread'][1] == 'thread'
-              and tdef == WANT_T)
+              and tdef in (WANT_T, WANT_T.replace('serde_json::Value::get_mut output', 'serde_json::Value::get output')))
     if not ok:
         res.violation('C15.4', 'C15.4|crashing_thread', f, f.line, 'crashing_thread is not clone(threads[requesting_thread]) + registers + threads_index: %s' % {k: v[1][:80] for k, v in ins.items()})
     # ---- C15.5 single serialiser
